@@ -39,6 +39,8 @@ def lookup_name(self, name):
             pass
     if name in self.builtins:
         return self.builtins[name]
+    if f is not None and getattr(f, "generated", False):
+        self.raise_exc("NameError", name)
     raise Unsupported(f"unresolved name {name!r} ({mod.relpath if mod else '?'}:{self.cur_line})")
 
 
@@ -114,6 +116,10 @@ def eval(self, node):  # noqa: A001
                 found, cg, _ = self.class_attr_raw(base, "__class_getitem__")
                 if not found:
                     return base
+            elif isinstance(base, BuiltinClass) and base.name in ("list", "tuple", "set", "dict", "frozenset"):
+                from .values import GenericAlias
+                a = self.eval(node.slice)
+                return GenericAlias(base, a if isinstance(a, tuple) else (a,))
             else:
                 return base
         return self.get_item(base, self.eval(node.slice))
@@ -1041,7 +1047,7 @@ def eval_comprehension(self, node):
 
 def do_getattr(self, obj, name):
     from .interp import ClassM, Prop, StaticM, TaskM
-    if name == "__class__" and not isinstance(obj, PObj):
+    if name == "__class__" and not isinstance(obj, PObj) and type(obj).__name__ != "SuperProxy":
         return self.call(self.builtins["type"], [obj], {})
     if isinstance(obj, PObj):
         if name in obj.fields:
@@ -1095,6 +1101,8 @@ def do_getattr(self, obj, name):
             return v
         if self.class_is_namedtuple(obj) and name == "_fields":
             return tuple(n for n, _, _ in obj.ann_fields)
+        if name in ("__init__", "__init_subclass__"):
+            return Builtin("object." + name, lambda ip, a, k: None)
         self.raise_exc("AttributeError", name)
     if isinstance(obj, ModuleInfo):
         try:
@@ -1161,6 +1169,29 @@ def do_getattr(self, obj, name):
         self.raise_exc("AttributeError", name)
     elif type(obj) in self.attr_handlers:
         return self.attr_handlers[type(obj)](self, obj, name)
+    elif type(obj).__name__ == "SuperProxy":
+        if name == "__class__":
+            return self.builtins["super"]
+        sv = obj.self_val
+        obj_cls = sv.cls if isinstance(sv, PObj) else sv
+        mro = self.mro(obj_cls)
+        idx = mro.index(obj.cls)
+        for c in mro[idx + 1:]:
+            if isinstance(c, ClassInfo):
+                if name in c.attr_cache:
+                    v = c.attr_cache[name]
+                elif name in c.methods:
+                    v = self.make_function(c.methods[name], c.module, c, c.qual + "." + name)
+                else:
+                    continue
+                if isinstance(v, FuncVal):
+                    return BoundMethod(sv, v)
+                if isinstance(v, ClassM):
+                    return BoundMethod(obj_cls, v.f)
+                if isinstance(v, StaticM):
+                    return v.f
+                return v
+        return Opaque("object." + name, kind="slot-wrapper")
     else:
         ty = self.type_of(obj) if isinstance(obj, (Sym, bytes, str, int, bool, float)) else None
         if isinstance(ty, tuple):
@@ -1322,6 +1353,13 @@ def eval_call(self, node):
         key = ast.dump(node.args[0])
         if key in self.old_cache:
             return self.old_cache[key]
+    if isinstance(node.func, ast.Name) and node.func.id == "super" and not node.args:
+        from .values import SuperProxy
+        fr = self.frames[-1]
+        fn = fr.func.node if fr.func is not None else None
+        if fn is None or fr.cls is None:
+            raise Unsupported("super() outside method")
+        return SuperProxy(fr.cls, fr.locals[fn.args.args[0].arg])
     f = self.eval(node.func)
     args, kwargs = self._eval_args(node)
     self.cur_line = node.lineno
@@ -1434,6 +1472,12 @@ def bind_args(self, f: FuncVal, self_val, args, kwargs):
 
 
 def _eval_default(self, f, node):
+    dv = getattr(f, "default_values", None)
+    if dv is not None:
+        ds = f.node.args.defaults
+        for i, d in enumerate(ds):
+            if d is node:
+                return dv[i]
     fr = __import__("pyvc.interp", fromlist=["Frame"]).Frame(f, {}, f.module, f.cls)
     # defaults are evaluated in the defining scope
     if f.closure:
